@@ -475,9 +475,16 @@ class SpaceTranslator(ParentTranslator):
         # Add dummy ref assignments to function definitions.
         # These assignments are removed by FormulaTransformer.
         lines = []
-        for k, v in space.refs.items():
-            if k[0] != '_':
-                lines.append(k + ' = None')
+        names = [k for k in space.refs if k[0] != '_']
+        # Child spaces and parameters can also have built-in names
+        names.extend(k for k in space.spaces if k[0] != '_')
+        p = space
+        while isinstance(p, BaseSpace):
+            if p.formula:
+                names.extend(p.parameters)
+            p = p.parent
+        for k in dict.fromkeys(names):
+            lines.append(k + ' = None')
 
         for k, v in space.cells.items():
             src = v.formula.source
